@@ -176,9 +176,10 @@ Definition search_index (buf : list Z) (rd idx ewt : Z) (packed : bool) (fnum : 
     if fx_idxrange fx && negb ex then EOk (rd1, rd1, false)
     else if cnt <? idx then EOk (rd1, rd1, false) else EOk (res, rd1, true).
 
-(* keys: str key = Some bytes, int key = None + Go int *)
-Fixpoint search_key (fuel : nat) (buf : list Z) (rd : Z) (skey : option (list Z)) (ikey kt fnum : Z)
-  : eres (Z * Z * bool) :=
+(* keys: str key = Some bytes, int key = None + Go int; ptag = tag offset of the ptag being read.
+   Result: position, new Read, found, tag offset of the matched ptag (-1: none) *)
+Fixpoint search_key (fuel : nat) (buf : list Z) (rd : Z) (skey : option (list Z)) (ikey kt fnum ptag : Z)
+  : eres (Z * Z * bool * Z) :=
   match fuel with
   | O => EPanic
   | S f =>
@@ -190,16 +191,16 @@ Fixpoint search_key (fuel : nat) (buf : list Z) (rd : Z) (skey : option (list Z)
         | Some k => elet '(s, r) := as_plain (c_string buf rd2) in EOk (bytes_eqb s k, r)
         | None => elet '(x, r) := as_plain (c_int buf rd2 kt) in EOk (x =? ikey, r)
         end in
-      if hit then EOk (rd3, rd3, true)
+      if hit then EOk (rd3, rd3, true, ptag)
       else
         elet '(_, vwt, rd4) := as_plain (c_tag buf rd3) in
         elet rd5 := as_node (c_skip buf rd4 vwt) in
-        if rd5 >=? blen buf then EOk (rd5, rd5, false)
+        if rd5 >=? blen buf then EOk (rd5, rd5, false, -1)
         else
           elet '(num, _, n) := c_tag_peek buf rd5 in
-          if negb (num =? fnum) then EOk (rd5, rd5, false)
-          else search_key f buf (rd5 + n) skey ikey kt fnum
-    else EOk (rd, rd, false)
+          if negb (num =? fnum) then EOk (rd5, rd5, false, -1)
+          else search_key f buf (rd5 + n) skey ikey kt fnum rd5
+    else EOk (rd, rd, false, -1)
   end.
 
 (* SkipAllElements: (size, new Read); all errors are plain *)
@@ -250,8 +251,9 @@ Definition narrow (buf : list Z) (rd mlen : Z) : list Z :=
   if fx_bound fx && (0 <=? mlen) && (mlen <? blen buf - rd) then firstn (Z.to_nat (rd + mlen)) buf else buf.
 
 Definition gstep (S : schema) (buf : list Z) (rd : Z) (desc : tdesc) (isRoot : bool) (st : pstep)
-  : option (list Z * eres (Z * Z * bool) * tdesc * Z * Z) :=
+  : option (list Z * eres (Z * Z * bool * Z) * tdesc * Z * Z) :=
   let fuel := Datatypes.S (length buf) in
+  let nopair (r : eres (Z * Z * bool)) : eres (Z * Z * bool * Z) := elet '(a, b, c) := r in EOk (a, b, c, -2) in
   match st with
   | PField _ | PName _ =>
     match td_msg S desc with
@@ -262,10 +264,10 @@ Definition gstep (S : schema) (buf : list Z) (rd : Z) (desc : tdesc) (isRoot : b
       | None => None                                   (* unknown fields are not generated *)
       | Some fd =>
         let '(buf1, r) :=
-          if isRoot then (buf, search_field fuel buf rd (fd_num fd) (rd + blen buf))
+          if isRoot then (buf, nopair (search_field fuel buf rd (fd_num fd) (rd + blen buf)))
           else match c_len buf rd with
                | EOk (mlen, rd1) => let b1 := narrow buf rd1 mlen in
-                                    (b1, search_field fuel b1 rd1 (fd_num fd) (rd1 + mlen))
+                                    (b1, nopair (search_field fuel b1 rd1 (fd_num fd) (rd1 + mlen)))
                | _ => (buf, ENode 2)                   (* errValue(ErrRead) *)
                end in
         Some (buf1, r, td_of_field fd, td_type (td_of_field fd), 11)
@@ -273,17 +275,17 @@ Definition gstep (S : schema) (buf : list Z) (rd : Z) (desc : tdesc) (isRoot : b
     end
   | PIndex idx =>
     match desc with
-    | DList id e => Some (buf, search_index buf rd idx (wire_of_type (td_type e)) (td_packed desc) id, desc, td_type e, T_LIST)
+    | DList id e => Some (buf, nopair (search_index buf rd idx (wire_of_type (td_type e)) (td_packed desc) id), desc, td_type e, T_LIST)
     | _ => None
     end
   | PStrKey k =>
     match desc with
-    | DMap id kk e => Some (buf, search_key fuel buf rd (Some k) 0 9 id, e, td_type e, T_MAP)
+    | DMap id kk e => Some (buf, search_key fuel buf rd (Some k) 0 9 id (rd - blen (varint_enc (id * 8 + 2))), e, td_type e, T_MAP)
     | _ => None
     end
   | PIntKey k =>
     match desc with
-    | DMap id kk e => Some (buf, search_key fuel buf rd None k kk id, e, td_type e, T_MAP)
+    | DMap id kk e => Some (buf, search_key fuel buf rd None k kk id (rd - blen (varint_enc (id * 8 + 2))), e, td_type e, T_MAP)
     | _ => None
     end
   end.
@@ -300,8 +302,20 @@ Fixpoint gwalk (S : schema) (buf : list Z) (rd : Z) (desc : tdesc) (isRoot : boo
       | EPanic => GPanic
       | EPlain => if fx_noderr fx then GErr false (addr ++ [0]) else GPanic      (* en := err.(Node) / errCodeOf *)
       | ENode c => GErr (c =? 1) (addr ++ [0])
-      | EOk (start, rd1, found) =>
-        let addr' := addr ++ [start] in
+      | EOk (start, rd1, found, ptag) =>
+        (* fx_mapentry: the slot of the map field carries the tag offset of the matched ptag (-1: none);
+           fx_elemaddr: an element of an unpacked list is addressed by its tag *)
+        let addr0 := match addr with
+                     | _ :: _ => if fx_mapentry fx && negb (ptag =? -2) then removelast addr ++ [ptag] else addr
+                     | [] => addr
+                     end in
+        let start_a := match st, desc with
+                       | PIndex _, DList id e =>
+                         if fx_elemaddr fx && found && negb (td_packed desc)
+                         then start - blen (varint_enc (id * 8 + wire_of_type (td_type e))) else start
+                       | _, _ => start
+                       end in
+        let addr' := addr0 ++ [start_a] in
         if negb found then
           (if is_last rest then GNotFoundLast start ttynf addr' else GErr true addr')
         else
@@ -370,8 +384,39 @@ Fixpoint desc_by_path (S : schema) (desc : tdesc) (p : list pstep) : option tdes
 Definition pt_of_step (st : pstep) : Z :=
   match st with PField _ | PName _ => PT_FIELD | PIndex _ => PT_INDEX | _ => PT_KEY end.
 
-Definition levels (addr : list Z) (p : list pstep) : list (nat * Z) :=
-  rev (combine (map Z.to_nat addr) (map pt_of_step p)).
+Definition levels (addr : list Z) (p : list pstep) : list (Z * Z) :=
+  rev (combine addr (map pt_of_step p)).
+
+(* updateByteLen under the repair flags (with all flags off this is ProtoRelen.relen_coded, see relen_coded_g_old):
+   fx_emptied: tag and length are dropped only when an emptied PACKED LIST is re-patched (drop = previousType is LIST);
+   fx_mapentry: a level below a map-key step is re-patched at the recorded ptag tag (address >= 0), and the in-place
+   branch no longer skips the previousType / isPacked update *)
+Definition relen_step_g (drop : bool) (b : list Z) (diff : Z) (addr : nat) : list Z * Z * bool :=
+  let buf := skipn addr b in
+  let '(_, tagOff) := varint_dec buf in
+  let '(len, lenOff) := varint_dec (skipn (Z.to_nat tagOff) buf) in
+  let newLength := len + diff in
+  let zero := (newLength =? 0) && drop in
+  let newBytes := if zero then [] else varint_enc (newLength mod 2 ^ 64) in
+  let subLen := blen newBytes - lenOff in
+  if subLen =? 0 then
+    (overwrite b (addr + Z.to_nat tagOff) newBytes, diff, true)
+  else
+    let head := if zero then addr else (addr + Z.to_nat tagOff)%nat in
+    let subLen' := if zero then subLen - tagOff else subLen in
+    (firstn head b ++ newBytes ++ skipn (addr + Z.to_nat tagOff + Z.to_nat lenOff) b, diff + subLen', false).
+
+Definition relen_coded_step_g (st : rstate) (lv : Z * Z) : rstate :=
+  let '(addr, pt) := lv in
+  if (rs_prev st =? 1) || (fx_mapentry fx && (rs_prev st =? 3) && (addr >=? 0)) || ((rs_prev st =? 2) && rs_packed st) then
+    let drop := if fx_emptied fx then rs_prev st =? 2 else true in
+    let '(b', d', inplace) := relen_step_g drop (rs_buf st) (rs_diff st) (Z.to_nat addr) in
+    if inplace && negb (fx_mapentry fx) then mk_rstate b' d' (rs_prev st) (rs_packed st)
+    else mk_rstate b' d' (prev_of_pt pt) false
+  else mk_rstate (rs_buf st) (rs_diff st) (prev_of_pt pt) (rs_packed st).
+
+Definition relen_coded_g (b : list Z) (diff : Z) (isPacked : bool) (lvls : list (Z * Z)) : list Z :=
+  rs_buf (fold_left relen_coded_step_g lvls (mk_rstate b diff 0 isPacked)).
 
 (* the declared type a path addresses, whatever the key kinds (the code does not check them) *)
 Fixpoint path_type_lax (S : schema) (lbl : flabel) (t : ftype) (p : list pstep) {struct p} : option (flabel * ftype) :=
@@ -429,11 +474,29 @@ Definition set_not_found (parent : Z) (st : pstep) (nt : Z) (src : list Z) (desc
   else if parent =? T_LIST then
     Some (if td_packed desc then src else varint_enc (td_baseid desc * 8 + 2) ++ src)
   else if parent =? T_MAP then
-    match to_raw st nt, desc with
-    | Some kb, DMap id _ e =>
-      let body := kb ++ varint_enc (8 + wire_of_type (td_type e)) ++ src in
-      Some (varint_enc (id * 8 + 2) ++ varint_enc (blen body) ++ body)
-    | _, _ => None
+    match desc with
+    | DMap id kk e =>
+      (* fx_insert: the key is encoded as the KEY type (wire type in the tag, all integer kinds), the value is field 2 *)
+      let okb := if fx_insert fx then
+                   match st with
+                   | PStrKey k => Some (varint_enc 10 ++ varint_enc (blen k) ++ k)
+                   | PIntKey k =>
+                     Some (varint_enc (Z.lor 8 (wire_of_type kk)) ++
+                           (if kk =? 13 then varint_enc (k mod 2 ^ 32)
+                            else if kk =? 4 then varint_enc (k mod 2 ^ 64)
+                            else if kk =? 7 then le_enc 4 (k mod 2 ^ 32)
+                            else if kk =? 6 then le_enc 8 (k mod 2 ^ 64)
+                            else match to_raw (PIntKey k) kk with Some b => skipn 1 b | None => [] end))
+                   | _ => None
+                   end
+                 else to_raw st nt in
+      match okb with
+      | Some kb =>
+        let body := kb ++ varint_enc ((if fx_insert fx then 16 else 8) + wire_of_type (td_type e)) ++ src in
+        Some (varint_enc (id * 8 + 2) ++ varint_enc (blen body) ++ body)
+      | None => None
+      end
+    | _ => None
     end
   else None.
 
@@ -445,7 +508,7 @@ Definition coded_set (S : schema) (root : list Z) (buf : list Z) (p : list pstep
     let finish (s e : Z) (x : list Z) (addr : list Z) (ex : bool) :=
       let b1 := splice buf (Z.to_nat s) (Z.to_nat e) x in
       let packed := match lst with PIndex _ => type_packed nt | _ => false end in
-      CRes 0 ex (relen_coded b1 (blen b1 - blen buf) packed (levels addr p)) in
+      CRes 0 ex (relen_coded_g b1 (blen b1 - blen buf) packed (levels addr p)) in
     match get_by_path S root buf p with
     | GFound n addr =>
       if g_t n =? nt then finish (g_start n) (g_end n) sub addr true
@@ -589,7 +652,11 @@ Definition coded_unset (S : schema) (root : list Z) (buf : list Z) (p : list pst
           match find_delete_child n nb tp with
           | EOk (s, e) =>
             let b1 := splice buf (Z.to_nat (g_start n + s)) (Z.to_nat (g_start n + e)) [] in
-            CRes 0 false (relen_coded b1 (blen b1 - blen buf) packed (levels (addr ++ [s]) p))
+            let addr1 := match lst, addr with
+                         | (PStrKey _ | PIntKey _), _ :: _ => if fx_mapentry fx then removelast addr ++ [-1] else addr
+                         | _, _ => addr
+                         end in
+            CRes 0 false (relen_coded_g b1 (blen b1 - blen buf) packed (levels (addr1 ++ [s]) p))
           | ENode _ => CRes 1 false buf
           | EPlain => CRes 1 false buf
           | EPanic => CPanic
